@@ -105,6 +105,23 @@ def traverse (root : Nat) (fuel : Nat) : List Event × Bool :=
   let r := run g fuel (init g root)
   (r.1.out, r.2)
 
+/-- one directory visit, or nothing when the walk has finished -/
+def stepOrStay (s : St V) : St V :=
+  match step g s with
+  | some s' => s'
+  | none => s
+
+def iter : Nat → St V → St V
+  | 0, s => s
+  | k + 1, s => iter k (stepOrStay g s)
+
+/-- Several traversals in one process (build_manifest + start_deep_stats, two web requests …): every traversal
+    has its own `found`, stack and walker; they share the directory graph, which `node.list()` only reads.  The
+    scheduler (the reactor's order of Deferred callbacks) picks which traversal makes its next directory visit. -/
+def multiRun : List Nat → (Nat → St V) → (Nat → St V)
+  | [], f => f
+  | i :: rest, f => multiRun rest (fun j => if j = i then stepOrStay g (f j) else f j)
+
 /-- `DeepStats.add_node` (deep_stats.py) is a fold over the `add_node` calls that bumps one counter per node
     according to its class; a counter is therefore the number of reported nodes of that class. -/
 def countNodes (p : NodeInfo V → Bool) (out : List Event) : Nat :=
